@@ -6,7 +6,7 @@ import DW.Model.StdLaws
 import DW.Lemmas.Dump
 import DW.Lemmas.Strings
 namespace DW.RT
-open DW
+open DW DW.Str
 
 /-- the key of a JSON object entry as `json.dumps` writes it (string keys only in the fragment) -/
 def keyStr : DVal → S
@@ -37,21 +37,25 @@ end
 /-- the default effective Meta (no Meta anywhere) -/
 abbrev eff0 : MetaCfg := {}
 
-/-- a dataclass without any load / dump customisation whose camelCase keys lead back to their fields -/
+/-- a dataclass without Meta, skip rules, catch-all or init=False fields whose dump keys (aliases declared with
+`all=True` included) lead back to their fields -/
 structure PlainCls (ci : ClassInfo) (ftys : List (S × Ty)) : Prop where
   noMeta : ci.cmeta = none
   names : ci.fields.map (·.name) = ftys.map (·.1)
   nodup : (ci.fields.map (·.name)).Nodup
-  plain : ∀ f ∈ ci.fields, f.init = true ∧ f.isCatchAll = false ∧ f.dumpSkip = false ∧ f.skipIf = none ∧
-            f.dumpAll = false ∧ f.loadKeys = []
-  keys : ∀ f ∈ ci.fields, ∃ k, (LetterCaseOpt.camel.toLC).apply f.name = some k ∧
-            resolveKey eff0 ci k = .ok (.field f.name)
+  plain : ∀ f ∈ ci.fields, f.init = true ∧ f.isCatchAll = false ∧ f.dumpSkip = false ∧ f.skipIf = none
+  /-- the key a field is dumped under — its first alias when `all=True`, else the camelCase of its name — leads the
+  loader back to the field -/
+  keys : ∀ f ∈ ci.fields, ∃ k, dumpKey eff0 f = .ok k ∧ resolveKey eff0 ci k = .ok (.field f.name)
 
 /-- types whose dump is never JSON null -/
 def nonNullTy : Ty → Bool
-  | .int => true | .str => true | .bool => true | .float => true
+  | .int => true | .str => true | .bool => true | .float => true | .timedelta => true
   | .leaf _ => true
   | .seq .list _ => true
+  | .seq .deque _ => true
+  | .vtuple _ => true
+  | .tuple (_ :: _) => true
   | .map .dict .str _ => true
   | .cls _ _ => true
   | _ => false
@@ -61,11 +65,18 @@ inductive Conf (std : Std) : Ty → PyVal → Prop
   | int (i : Int) : Conf std .int (.int i)
   | float (f : PyFloat) : Conf std .float (.float f)
   | leaf (k : LeafKind) (t : S) : std.validTok k t = true → Conf std (.leaf k) (.leaf k false t)
+  | timedelta (us : Int) : 0 ≤ us → Conf std .timedelta (.timedelta us)
   | str (s : S) : Conf std .str (.str s)
   | bool (b : Bool) : Conf std .bool (.bool b)
   | optNone (t : Ty) : Conf std (.optional t) .none
   | optSome (t : Ty) (v : PyVal) : nonNullTy t = true → Conf std t v → Conf std (.optional t) v
   | list (t : Ty) (xs : List PyVal) : (∀ x ∈ xs, Conf std t x) → Conf std (.seq .list t) (.seq .list xs)
+  | vtuple (t : Ty) (xs : List PyVal) : (∀ x ∈ xs, Conf std t x) → Conf std (.vtuple t) (.tuple xs)
+  | deque (t : Ty) (xs : List PyVal) : (∀ x ∈ xs, Conf std t x) → Conf std (.seq .deque t) (.seq .deque xs)
+  | tuple (ts : List Ty) (xs : List PyVal) : ts ≠ [] → xs.length = ts.length → (∀ p ∈ ts.zip xs, Conf std p.1 p.2) →
+      Conf std (.tuple ts) (.tuple xs)
+  | enum (name : S) (members : List (S × Lit)) (m : S) (v : Lit) : (m, v) ∈ members → jEqLit v.toJ v = true →
+      (∀ m' ∈ members, jEqLit v.toJ m'.2 = true → m' = (m, v)) → Conf std (.enum name members) (.enum name m v)
   | dict (t : Ty) (kvs : List (S × PyVal)) : (kvs.map (·.1)).Nodup → (∀ p ∈ kvs, Conf std t p.2) →
       Conf std (.map .dict .str t) (.map .dict (kvs.map (fun p => (.str p.1, p.2))))
   | inst (ci : ClassInfo) (ftys : List (S × Ty)) (vals : List PyVal) : PlainCls ci ftys → vals.length = ftys.length →
@@ -221,6 +232,160 @@ theorem rt_dict (std : Std) (t : Ty) (kvs : List (S × PyVal)) (hnd : (kvs.map (
     simp only [List.map_nil, List.nil_append] at hfold
     rw [hfold]
 
+theorem dumpV_tuple (std : Std) (xs : List PyVal) :
+    dumpV std false none (.tuple xs) = (dumpList std false none xs).map DVal.tuple := by
+  rw [dumpV]
+  simp only [hookFor_tuple, bind, Except.bind, pure, Except.pure, Except.map]
+
+theorem rt_vtuple (std : Std) (t : Ty) (xs : List PyVal) (ih : ∀ x ∈ xs, RT std t x) : RT std (.vtuple t) (.tuple xs) := by
+  intro d h
+  rw [dumpV_tuple] at h
+  cases hd : dumpList std false none xs with
+  | error e => simp [hd, Except.map] at h
+  | ok ds =>
+    simp [hd, Except.map] at h; subst h
+    have htj : toJ (.tuple ds) = .list (toJList ds) := by rw [toJ]
+    rw [htj, loadD]
+    simp only [jIter, bind, Except.bind, mapME_list std t xs ds ih hd, pure, Except.pure]
+
+theorem toJ_litToD (v : Lit) : toJ v.toD = v.toJ := by
+  cases v <;> (simp only [Lit.toD, Lit.toJ]; rw [toJ])
+
+theorem dump_enum (std : Std) (name m : S) (v : Lit) : dumpV std false none (.enum name m v) = .ok v.toD := by
+  simp [dumpV, dumpScalar, pure, Except.pure]
+
+theorem rt_enum (std : Std) (name : S) (members : List (S × Lit)) (m : S) (v : Lit) (hm : (m, v) ∈ members)
+    (hrefl : jEqLit v.toJ v = true) (huniq : ∀ m' ∈ members, jEqLit v.toJ m'.2 = true → m' = (m, v)) :
+    RT std (.enum name members) (.enum name m v) := by
+  intro d h
+  rw [dump_enum] at h; cases h
+  rw [toJ_litToD, loadD]
+  unfold asEnum
+  cases hf : members.find? (fun m' => jEqLit v.toJ m'.2) with
+  | none =>
+    have := List.find?_eq_none.1 hf (m, v) hm
+    simp [hrefl] at this
+  | some m' =>
+    have hmem := List.mem_of_find?_eq_some hf
+    have hp : jEqLit v.toJ m'.2 = true := by simpa using List.find?_some hf
+    rw [huniq m' hmem hp]
+    rfl
+
+theorem mem_replaceFirst_dot (c : Char) (hc : c ≠ '.') : ∀ (s : S), c ∈ s → c ∈ replaceFirst ['.'] [] s
+  | [], h => by simp at h
+  | x :: r, h => by
+    by_cases hp : ['.'] <+: x :: r
+    · rw [replaceFirst_cons_pos _ _ _ _ hp]
+      have hx : x = '.' := by
+        obtain ⟨t, ht⟩ := hp
+        simp at ht; exact ht.1.symm
+      subst hx
+      rcases List.mem_cons.1 h with h | h
+      · exact absurd h hc
+      · simpa using h
+    · rw [replaceFirst_cons_neg _ _ _ _ hp]
+      rcases List.mem_cons.1 h with h | h
+      · simp [h]
+      · exact List.mem_cons_of_mem _ (mem_replaceFirst_dot c hc r h)
+
+theorem looksNumeric_false (s : S) (h : ':' ∈ s) : looksNumeric s = false := by
+  unfold looksNumeric
+  have hm := mem_replaceFirst_dot ':' (by decide) s h
+  have : (replaceFirst ['.'] [] s).all isDig = false := by
+    rw [List.all_eq_false]
+    exact ⟨':', hm, by decide⟩
+  simp only [this, Bool.and_false]
+
+theorem colon_mem_tdStr (us : Int) : ':' ∈ tdStr us := by
+  unfold tdStr
+  simp only
+  split <;> split <;> simp
+
+
+theorem dump_timedelta (std : Std) (us : Int) : dumpV std false none (.timedelta us) = .ok (.str (tdStr us)) := by
+  simp [dumpV, dumpScalar, pure, Except.pure]
+
+theorem rt_timedelta (std : Std) (laws : StdLaws std) (us : Int) (h0 : 0 ≤ us) : RT std .timedelta (.timedelta us) := by
+  intro d h
+  rw [dump_timedelta] at h; cases h
+  obtain ⟨n, hn, hs⟩ := laws.timedelta_rt us h0
+  have htj : toJ (.str (tdStr us)) = .str (tdStr us) := by rw [toJ]
+  rw [htj, loadD]
+  simp only [asTimedelta, looksNumeric_false (tdStr us) (colon_mem_tdStr us), Bool.false_eq_true, if_false, hn, hs,
+    pure, Except.pure]
+
+theorem dumpV_deque (std : Std) (xs : List PyVal) :
+    dumpV std false none (.seq .deque xs) = (dumpList std false none xs).map DVal.list := by
+  rw [dumpV]
+  simp only [hookFor_deque, bind, Except.bind, pure, Except.pure, Except.map]
+
+theorem rt_deque (std : Std) (t : Ty) (xs : List PyVal) (ih : ∀ x ∈ xs, RT std t x) : RT std (.seq .deque t) (.seq .deque xs) := by
+  intro d h
+  rw [dumpV_deque] at h
+  cases hd : dumpList std false none xs with
+  | error e => simp [hd, Except.map] at h
+  | ok ds =>
+    simp [hd, Except.map] at h; subst h
+    have htj : toJ (.list ds) = .list (toJList ds) := by rw [toJ]
+    rw [htj, loadD]
+    simp only [jIter, bind, Except.bind, mapME_list std t xs ds ih hd, mkSeq, pure, Except.pure]
+
+theorem toJList_length (ds : List DVal) : (toJList ds).length = ds.length := by
+  induction ds with
+  | nil => rfl
+  | cons x r ih => simp [toJList, ih]
+
+theorem dumpList_length (std : Std) : ∀ (xs : List PyVal) (ds : List DVal), dumpList std false none xs = .ok ds → ds.length = xs.length
+  | [], ds, h => by simp only [dumpList, pure, Except.pure, Except.ok.injEq] at h; subst h; rfl
+  | x :: xs, ds, h => by
+    simp only [dumpList, bind, Except.bind] at h
+    split at h
+    · simp at h
+    · split at h
+      · simp at h
+      · next ys hys =>
+        simp only [pure, Except.pure, Except.ok.injEq] at h; subst h
+        simp [dumpList_length std xs ys hys]
+
+theorem loadZip_ok (std : Std) : ∀ (ts : List Ty) (xs : List PyVal) (ds : List DVal), xs.length = ts.length →
+    (∀ p ∈ ts.zip xs, RT std p.1 p.2) → dumpList std false none xs = .ok ds →
+    loadZip std none ts (toJList ds) = .ok xs
+  | [], xs, ds, hl, _, h => by
+    have : xs = [] := by simpa using hl
+    subst this
+    simp only [dumpList, pure, Except.pure, Except.ok.injEq] at h; subst h; rfl
+  | t :: ts, [], ds, hl, _, _ => by simp at hl
+  | t :: ts, x :: xs, ds, hl, ih, h => by
+    simp only [dumpList, bind, Except.bind] at h
+    split at h
+    · simp at h
+    · next y hy =>
+      split at h
+      · simp at h
+      · next ys hys =>
+        simp only [pure, Except.pure, Except.ok.injEq] at h; subst h
+        have h1 := ih (t, x) (by simp) y hy
+        have h2 := loadZip_ok std ts xs ys (by simpa using hl) (fun p hp => ih p (by simp [hp])) hys
+        simp only at h1
+        simp [toJList, loadZip, h1, h2, bind, Except.bind, pure, Except.pure]
+
+theorem rt_tuple (std : Std) (ts : List Ty) (xs : List PyVal) (hne : ts ≠ []) (hl : xs.length = ts.length)
+    (ih : ∀ p ∈ ts.zip xs, RT std p.1 p.2) : RT std (.tuple ts) (.tuple xs) := by
+  intro d h
+  rw [dumpV_tuple] at h
+  cases hd : dumpList std false none xs with
+  | error e => simp [hd, Except.map] at h
+  | ok ds =>
+    simp [hd, Except.map] at h; subst h
+    have htj : toJ (.tuple ds) = .list (toJList ds) := by rw [toJ]
+    have hlen : (toJList ds).length = ts.length := by rw [toJList_length, dumpList_length std xs ds hd, hl]
+    have hreq : (ts.filter (fun t => !acceptsNone t)).length ≤ ts.length := List.length_filter_le _ _
+    have hemp : ts.isEmpty = false := by cases ts <;> simp_all
+    rw [htj, loadD]
+    simp only [jLen, jIter, hemp, Bool.false_eq_true, if_false, hlen]
+    simp only [hreq, decide_true, Nat.le_refl, Bool.and_self, if_true, loadZip_ok std ts xs ds hl ih hd, bind, Except.bind,
+      pure, Except.pure]
+
 theorem dump_float (std : Std) (f : PyFloat) : dumpV std false none (.float f) = .ok (.float f) := by
   simp [dumpV, dumpScalar, pure, Except.pure]
 theorem rt_float (std : Std) (f : PyFloat) : RT std .float (.float f) := by
@@ -258,6 +423,7 @@ theorem dump_nonnull (std : Std) (t : Ty) (v : PyVal) (hc : Conf std t v) (hn : 
   | int i => rw [dump_int] at h; cases h; simp [toJ]
   | float f => rw [dump_float] at h; cases h; simp [toJ]
   | leaf k t _ => rw [dump_leaf] at h; cases h; simp [toJ]
+  | timedelta us _ => rw [dump_timedelta] at h; cases h; simp [toJ]
   | str s => rw [dump_str] at h; cases h; simp [toJ]
   | bool b => rw [dump_bool] at h; cases h; simp [toJ]
   | optNone t => simp [nonNullTy] at hn
@@ -266,6 +432,19 @@ theorem dump_nonnull (std : Std) (t : Ty) (v : PyVal) (hc : Conf std t v) (hn : 
     rw [dumpV_list] at h
     cases hd : dumpList std false none xs <;> simp [hd, Except.map] at h
     subst h; simp [toJ]
+  | vtuple t xs _ =>
+    rw [dumpV_tuple] at h
+    cases hd : dumpList std false none xs <;> simp [hd, Except.map] at h
+    subst h; simp [toJ]
+  | tuple ts xs _ _ _ =>
+    rw [dumpV_tuple] at h
+    cases hd : dumpList std false none xs <;> simp [hd, Except.map] at h
+    subst h; simp [toJ]
+  | deque t xs _ =>
+    rw [dumpV_deque] at h
+    cases hd : dumpList std false none xs <;> simp [hd, Except.map] at h
+    subst h; simp [toJ]
+  | enum name members m v _ _ _ => simp [nonNullTy] at hn
   | dict t kvs _ _ =>
     rw [dumpV_dict] at h
     cases hd : dumpPairs std false none (kvs.map (fun p => (PyVal.str p.1, p.2))) <;> simp [hd, Except.map] at h
@@ -380,16 +559,14 @@ theorem fields_chain (std : Std) (ci : ClassInfo) (ftys : List (S × Ty)) (hp : 
   | e :: r, body, hg, h => by
     obtain ⟨f, hf, hname⟩ := (hg e (by simp)).fi
     have hpl := hp.plain f hf
-    obtain ⟨k, hk, hres⟩ := hp.keys f hf
+    obtain ⟨k, hkey, hres⟩ := hp.keys f hf
     have hfind : ci.fields.find? (fun g => g.name == e.1.1) = some f := by
       have := find_unique (fun g : FieldInfo => g.name) ci.fields f hp.nodup hf
       simpa [hname] using this
     rw [List.map_cons, show nv e = (e.1.1, e.2) from rfl,
       dumpFields_cons_plain std false none eff0 {} ci e.1.1 e.2 (r.map nv) (by simp [hfind, hpl.2.1])] at h
-    simp only [hfind, Option.getD_some, fieldSkipped_plain f e.2 hpl.2.2.1 hpl.2.2.2.1, bind, Except.bind,
+    simp only [hfind, Option.getD_some, fieldSkipped_plain f e.2 hpl.2.2.1 hpl.2.2.2, bind, Except.bind,
       Bool.false_eq_true, if_false] at h
-    have hkey : dumpKey eff0 f = .ok k := by
-      simp [dumpKey, hpl.2.2.2.2.1, hk]
     rw [hkey] at h
     simp only at h
     split at h
@@ -483,11 +660,16 @@ theorem roundtrip (std : Std) (laws : StdLaws std) (t : Ty) (v : PyVal) (hc : Co
   | int i => exact rt_int std i
   | float f => exact rt_float std f
   | leaf k t ht => exact rt_leaf std laws k t ht
+  | timedelta us h0 => exact rt_timedelta std laws us h0
   | str s => exact rt_str std s
   | bool b => exact rt_bool std b
   | optNone t => exact rt_optNone std t
   | optSome t v hn hc ih => exact rt_optSome std t v hn hc ih
   | list t xs _ ih => exact rt_list std t xs ih
+  | vtuple t xs _ ih => exact rt_vtuple std t xs ih
+  | deque t xs _ ih => exact rt_deque std t xs ih
+  | tuple ts xs hne hl _ ih => exact rt_tuple std ts xs hne hl ih
+  | enum name members m v hm hr hu => exact rt_enum std name members m v hm hr hu
   | dict t kvs hnd _ ih => exact rt_dict std t kvs hnd ih
   | inst ci ftys vals hp hlen _ ih => exact rt_inst std ci ftys vals hp hlen ih
 
@@ -504,7 +686,9 @@ theorem roundtrip_root (std : Std) (laws : StdLaws std) (ci : ClassInfo) (ftys :
     rw [hrt]
 
 /-- a nested model of the fragment (non-vacuity of `PlainCls` / `Conf`) -/
-def exInner : ClassInfo := { name := "Inner".toList, fields := [{ name := "val_one".toList }, { name := "tags".toList }] }
+def exInner : ClassInfo :=
+  { name := "Inner".toList,
+    fields := [{ name := "val_one".toList }, { name := "tags".toList, loadKeys := ["TAGS".toList, "labels".toList], dumpAll := true }] }
 def exInnerTys : List (S × Ty) := [("val_one".toList, .int), ("tags".toList, .seq .list .str)]
 def exRoot : ClassInfo := { name := "Root".toList, fields := [{ name := "inner_obj".toList }, { name := "by_name".toList }, { name := "maybe".toList }] }
 def exRootTys : List (S × Ty) :=
@@ -515,16 +699,16 @@ theorem exInner_plain : PlainCls exInner exInnerTys := by
   intro f hf
   simp only [exInner, List.mem_cons, List.not_mem_nil, or_false] at hf
   rcases hf with rfl | rfl
-  · exact ⟨"valOne".toList, by decide, by rfl⟩
-  · exact ⟨"tags".toList, by decide, by rfl⟩
+  · exact ⟨"valOne".toList, by rfl, by rfl⟩
+  · exact ⟨"TAGS".toList, by rfl, by rfl⟩
 
 theorem exRoot_plain : PlainCls exRoot exRootTys := by
   refine ⟨rfl, rfl, by decide, by decide, ?_⟩
   intro f hf
   simp only [exRoot, List.mem_cons, List.not_mem_nil, or_false] at hf
   rcases hf with rfl | rfl | rfl
-  · exact ⟨"innerObj".toList, by decide, by rfl⟩
-  · exact ⟨"byName".toList, by decide, by rfl⟩
-  · exact ⟨"maybe".toList, by decide, by rfl⟩
+  · exact ⟨"innerObj".toList, by rfl, by rfl⟩
+  · exact ⟨"byName".toList, by rfl, by rfl⟩
+  · exact ⟨"maybe".toList, by rfl, by rfl⟩
 
 end DW.RT
